@@ -56,18 +56,19 @@ def Bus.onWriteDr (b : Bus) (addr : Nat) (dr : BitVec 8) : Bus :=
   let ioPortOut := dr &&& ddr
   b.sendIoPortValue port ioPortOut
 
+/-- clock select of `update_tcr`: CKS 0 stops the clock, 1–3 select /8, /64, /8192, 4–7 (external /
+    cascade, not implemented) leave the divisor alone -/
+def newPrescaler (old : Nat) (cks : BitVec 8) : Nat :=
+  if cks == 0#8 then 0 else if cks == 1#8 then 8 else if cks == 2#8 then 64 else if cks == 3#8 then 8192 else old
+
 /-- `Timer8_0::update_tcr` -/
 def Timer.updateTcr (t : Timer) (tcr : BitVec 8) : Timer :=
-  let t := { t with cmib := tcr &&& 0x80#8 != 0#8, cmia := tcr &&& 0x40#8 != 0#8, ovi := tcr &&& 0x20#8 != 0#8 }
-  let t := { t with clearedBy := ((tcr &&& 0x18#8) >>> 3).toNat }
-  let cks := tcr &&& 0x07#8
-  let t :=
-    if cks == 0#8 then { t with prescaler := 0 }
-    else if cks == 1#8 then { t with prescaler := 8 }
-    else if cks == 2#8 then { t with prescaler := 64 }
-    else if cks == 3#8 then { t with prescaler := 8192 }
-    else t
-  t
+  let p := newPrescaler t.prescaler (tcr &&& 0x07#8)
+  { t with cmib := tcr &&& 0x80#8 != 0#8, cmia := tcr &&& 0x40#8 != 0#8, ovi := tcr &&& 0x20#8 != 0#8,
+           clearedBy := ((tcr &&& 0x18#8) >>> 3).toNat,
+           prescaler := p,
+           -- a newly selected clock starts a fresh period
+           state := if p != t.prescaler then 0 else t.state }
 
 /-- `ModuleManager::write_registers` -/
 def Bus.writeRegisters (b : Bus) (addr : Nat) (value : BitVec 8) : Bus :=
